@@ -1170,7 +1170,10 @@ class Executor:
             _, seqloc, j, seq = loc
             n = z3.Length(seq.v)
             new = z3.Concat(z3.SubSeq(seq.v, 0, j), z3.Unit(coerce(val, seq.ty.elem).t), z3.SubSeq(seq.v, j + 1, n - j - 1))
+            keep = {k: v for k, v in st.locals.items() if v.loc is loc}
             self.write_back(st, seqloc, SV(seq.ty, new))
+            for k, v in keep.items():  # the alias now denotes the updated element
+                st.locals[k] = SV(val.ty, val.v, loc=("elem", seqloc, j, SV(seq.ty, new)))
             return
         if loc[0] == "local":
             st.locals[loc[1]] = SV(val.ty, val.v)
@@ -1190,6 +1193,11 @@ class Executor:
             self.written_fields.add(fd.key)
         if val.ty.kind == "seq" and fd.ty.kind == "seq" and val.ty != fd.ty:
             val, _ = self.unify_seq(val, SV(fd.ty, z3.Empty(fd.ty.sorts()[0])))
+        # element aliases into this field are stale once the container changes
+        for k, lv in list(st.locals.items()):
+            l = lv.loc
+            if l is not None and l[0] == "elem" and l[1] is not None and l[1][0] == "field" and l[1][2] == name:
+                st.locals[k] = SV(lv.ty, lv.v)
         st.heap.set(ref, name, val)
 
     # ------------------------------------------------------------------
@@ -1354,6 +1362,11 @@ class Executor:
     def assign(self, tgt, v: SV, st, sink):
         """Returns list of successor states."""
         if isinstance(tgt, ast.Name):
+            if v.ty.kind == "dt" and v.loc is not None:
+                # a python object modelled as a value, read out of a container: the local is an alias of that element;
+                # a later mutation through the local is written back to where it was read from
+                st.locals[tgt.id] = v
+                return [st]
             st.locals[tgt.id] = SV(v.ty, v.v) if v.loc is not None else v
             if v.loc is not None and v.ty.kind in ("seq", "map", "set"):
                 st.locals[tgt.id] = SV(v.ty, v.v)
@@ -1818,9 +1831,16 @@ class Executor:
     # ------------------------------------------------------------------
     def verify(self, c: Contract) -> list[Obligation]:
         mod = extract.load(c.module)
-        if c.qualname not in mod.functions:
+        qual = c.qualname
+        if qual not in mod.functions and "." in qual:
+            # `name = other_method` in the class body: the contract of `name` is checked against the body that really runs
+            cname, mname = qual.rsplit(".", 1)
+            al = mod.class_consts.get(cname, {}).get(mname)
+            if isinstance(al, tuple) and al and al[0] == "alias" and f"{cname}.{al[1]}" in mod.functions:
+                qual = f"{cname}.{al[1]}"
+        if qual not in mod.functions:
             raise Unsupported(f"function {c.target} not found in the current tree (renamed or removed)")
-        fn = mod.func(c.qualname)
+        fn = mod.func(qual)
         self.func_under_check = c.qualname
         self.cur_contract = c
         before = len(self.obligations)
@@ -1863,7 +1883,7 @@ class Executor:
                 self.inputs["probe_" + pname] = SV(ty, pc)
         self.cur_old = h0.heap
         st.locals = dict(params)
-        self.frame = Frame(mod, c.qualname)
+        self.frame = Frame(mod, qual)
         self.frames = []
         self.written_fields = set()
         flows = self.exec_block(fn.body, st)
